@@ -589,7 +589,7 @@ class Check:
         self.known_hits = []
         self.notes = []
         self.rng = random.Random(seed)
-        self.known = [f for f in load_known().get("findings", []) if f["property"] == prop]
+        self.known = [f for f in load_known().get("findings", []) if f["property"] == prop or prop in f.get("also_seen_in", [])]
         # stale replay files of this property are removed: the run rewrites what it reports
         rd = os.path.join(VERIF, "evidence", "replay")
         if os.path.isdir(rd):
